@@ -23,10 +23,6 @@ open PedVerif.TypeVars
 #print axioms C07_partial
 #print axioms C07_full_false
 #print axioms mismatch_in_optional_is_typecheck
-#print axioms mismatch_in_optional_witness
-#print axioms methodLevelTypeVar_per_call
-#print axioms nonGeneric_keeps_bindings_params
-#print axioms nonGeneric_keeps_bindings_result
 #print axioms runTree_out
 #print axioms nested_calls_do_not_disturb
 #print axioms nested_calls_do_not_disturb_alone
@@ -39,3 +35,44 @@ open PedVerif.TypeVars
 #print axioms sched_outcome_alone
 #print axioms sched_complete_alone
 #print axioms C07_sched_partial
+#print axioms tvBranch_writes_only_when_accepted
+#print axioms alt_union_refines
+#print axioms alt_call_refines
+#print axioms keeps_first_element
+#print axioms kwargs_all_checked
+#print axioms kwarg_is_checked
+#print axioms variadic_call_refines
+#print axioms shape_resolves
+#print axioms shape_in_init
+#print axioms constraints_rejected
+#print axioms bound_rejected
+#print axioms runCall_out
+#print axioms shape_kind_eq_spec
+#print axioms declared_call_refines
+#print axioms zipGenerics_exact
+#print axioms walk_refines_none_first
+#print axioms C07_declared_partial
+
+/-! WITNESSES — single inputs evaluated on the model (`by decide`): the regions of the recorded findings, the regions the property does
+not speak of, former regions that are theorems now, position facts of the translated code.  They are not property theorems and are
+not counted as obligations (the lines are indented: `harness/core.py` counts the `#print axioms` lines that start a line); they are
+elaborated with this file all the same. -/
+section Witnesses
+  #print axioms mismatch_in_optional_witness
+  #print axioms methodLevelTypeVar_per_call
+  #print axioms nonGeneric_keeps_bindings_params
+  #print axioms nonGeneric_keeps_bindings_result
+  #print axioms failed_alternative_leaves_binding_witness
+  #print axioms mismatch_in_alternative_aborts_witness
+  #print axioms first_base_with_other_arguments_escapes
+  #print axioms first_base_without_arguments_binds_nothing
+  #print axioms first_base_in_other_order_swaps
+  #print axioms generic_subclass_not_recognised_witness
+  #print axioms init_of_generic_instance_unchecked_witness
+  #print axioms type_of_typevar_unchecked_witness
+  #print axioms union_member_exception_aborts_witness
+  #print axioms source_scan_region_witness
+  #print axioms bounded_class_parameter_witness
+  #print axioms bind_after_every_test
+  #print axioms user_base_only_is_per_call
+end Witnesses
